@@ -21,7 +21,8 @@ P1_RULE = ("histories generated from one SplitMix64 state: commits of 1..6 ops o
            "reopen (and crash for C02/C03/C07); distinct = by SHA-1 of the op list; non-trivial = the history had data "
            "in at least two different pipeline stages at some observation point")
 
-HOOK_COMMITS = ["556ca83 verif hook: raw node bytes in the btree dump, Node::from_encoded on given bytes (cfg pdb_verif)",
+HOOK_COMMITS = ["7b1e3f5 verif hook: lowered initial ref-count table size for tests, yield points in commit_changes (cfg pdb_verif)",
+                "556ca83 verif hook: raw node bytes in the btree dump, Node::from_encoded on given bytes (cfg pdb_verif)",
                 "9377f92 verif hook: yield points around the deferral check of process_commits (cfg pdb_verif)",
                 "bb68460 verif hook: read-only dump of the multitree node forest and ref-count tables (cfg pdb_verif)",
                 "39fa7aa verif hook: expose both index page searches (cfg pdb_verif)",
@@ -128,15 +129,31 @@ PROPS = {
                        "DbInner::validate_change: exactly the listed column/operation combinations are rejected, wherever they sit). "
                        "Tied to the code by transactions with an invalid operation at a random position over columns of every kind, "
                        "observing the full public state before/after, after drain and after reopen, and by the exhaustive single-operation "
-                       "matrix compared with the model."),
+                       "matrix compared with the model."
+                       " Database level (C08_db_*, model Pdb.MultiTree.TDb = commit_changes + commit_raw over any number of multitree and key-va"
+                       "lue columns with claimed slots, free stack, to_dereference counters, queue / overlay, commit id counter, stored backgrou"
+                       "nd error; the multitree part is what the c10 driver runs): C08_db_rejected_no_trace (any call that does not return ok re"
+                       "turns a state EQUAL in all components), C08_db_invalid_rejected (an operation validate_change refuses, or on a missing c"
+                       "olumn, at ANY position), C08_db_bgerr_refused, C08_db_accepted_iff (after validation the assembly cannot fail), C08_db_n"
+                       "o_trace_history, C08_db_single_column (ties it to TState.commit of C10), and the negative witnesses C08_db_F1_order_leav"
+                       "es_trace / C08_db_F23_order_leaves_trace (validation inside the loop / background error tested after the claims: a trace"
+                       " stays)."),
         "level_note": ("Trusted: Lean kernel; the validation model is hand-written (tied by the exhaustive matrix run); I/O errors after "
-                       "validation (claiming slots, reading a tree root) are outside the property's list and the model."),
+                       "validation (claiming slots, reading a tree root) are outside the property's list and the model."
+                       " errors after validation: I/O errors are outside the property's list (C16); the two schedule-dependent non-I/O causes (F"
+                       "43 root read twice, F44 background error stored during assembly) are reproduced by c08 with yield hooks and cannot be ex"
+                       "pressed in the one-step model; order validate / bg_err / claim tied to the source by the T0 obligations commitChanges_va"
+                       "lidate_before_claim, commitChanges_bgerr_before_claim."),
         "lean": ["Pdb.Props.C08"],
         "harness": [{"cmd": "c08", "quick": 60, "thorough": 3000}, {"cmd": "p1", "quick": 100, "thorough": 5000}],
         "rule": ("c08: 5 columns (plain, rc, btree, multitree rc, multitree append-only), 10..30 transactions of 1..5 valid operations, "
                  "half of them with one invalid operation inserted at a random position (first / middle / last measured), plus the "
                  "exhaustive column-kind x operation-kind matrix incl. fan-out 255/256 and missing roots; p1: histories with ~3% invalid "
-                 "references; distinct by SHA-1 of the op list; non-trivial = at least one transaction was rejected"),
+                 "references; distinct by SHA-1 of the op list; non-trivial = at least one transaction was rejected"
+                 "; c08 now has 10 columns (adds preimage without rc: hash and btree), a CONTENT oracle (plain maps of values / counts / t"
+                 "ree roots with fan-out / entry counts produced by the accepted commits) compared line by line with every drained and eve"
+                 "ry reopened state, the background-error refusal phase, and the yield-hook scenarios F43 (fixed 485fed3: must now be acce"
+                 "pted) / F44"),
         "assumptions": [A_HASH, P2_GAP],
     },
     "C16": {
@@ -249,7 +266,21 @@ PROPS = {
                        "C10_all_deref_empty_pipeline: for every schedule of commits and process steps of the pipeline model (addresses "
                        "claimed and overlay filled at commit, table effects in process_commits) every live tree is readable through the "
                        "overlays exactly as in the atomic heap, and the drained tables equal the atomic heap. The model is tied to the real "
-                       "Db by differential runs; an independent logical forest with multiset reference counting checks the implementation."),
+                       "Db by differential runs; an independent logical forest with multiset reference counting checks the implementation."
+                       " Transactions and reuse (second half of Props/C10.lean, model TState/TDb = what the c10 driver runs: commit_changes with"
+                       " several operations, LIFO free-entry stack, planning order of write_plan): C10T_commit_atomic (an error leaves the colum"
+                       "n state equal; accepted iff every operation validates), C10T_tx_in_order (planning order = order given up to the order o"
+                       "f the root list, for accepted transactions within DerefApart), C10T_tx_RcInv (every legal transaction preserves RcInv wi"
+                       "th new nodes at REUSED addresses, never fails when processed, frame), C10T_read_back / _insert / _pipeline (every tree i"
+                       "nserted by a legal transaction is stored exactly as supplied, Existing children are the addresses named; readable throug"
+                       "h the commit overlay as soon as the commit returns), C10T_pipeline_refines (every legal schedule of transaction commits "
+                       "and process steps with address reuse: the atomic heap satisfies RcInv, all its roots and nodes are readable through the "
+                       "overlays, drained tables = atomic heap, free stack / claimed slots / table nodes partition the addresses below the fill "
+                       "mark), C10T_all_deref_reclaimed (all trees dereferenced and drained: no node, no count, zero entries, every address back"
+                       " on the free stack exactly once), C10T_rc_tables_refine (current + queued ref-count tables refine the single count map a"
+                       "cross growth, reindex passes and drops); witnesses C10T_deref_ref_same_tx_keeps (admissible), C10T_F41_plain / _rc / _in"
+                       "_order_reading (finding F41), C10T_insert_live_key_leaks, C10T_dangling_existing_accepted (outside the quantifier, accep"
+                       "ted by the Db)."),
         "level_note": ("T2 for the node forest: at every quiescent point (enact to quiescence, drain points, reopen) the hook "
                        "Db::verif_multitree_dump dumps live node slots with their children, roots, ref-count tables and cache; the LEAN checker "
                        "(driver command t2rc, Pdb/Model/DumpCheckRc.lean) evaluates RcInv on it with a rank witness for acyclicity, proved sound "
@@ -263,14 +294,21 @@ PROPS = {
                        "here; A-hash for root keys."),
         "lean": ["Pdb.Props.C10", "Pdb.Props.C14DumpRc"],
         "harness": [{"cmd": "c10", "quick": 400, "thorough": 6000, "max_search": 20000}],
-        "rule": ("histories from one SplitMix64 state on a one-column Db (variant append_only / ref_counted roots / plain, the latter two "
-                 "with direct node access): InsertTree of generated trees (depth 0..5, fan-out 0..255 incl. exactly 255, and 256..300 "
-                 "which must be rejected; node data 0..40 KiB incl. multipart; Existing children drawn from nodes of live trees, the same "
-                 "node several times), ReferenceTree, DereferenceTree (also of missing roots), interleaved with process / flush / enact / "
-                 "clean / reopen and reads through get_tree().read() + TreeReader and the direct API, get_num_column_value_entries; at the "
-                 "end every tree is dereferenced and the column must hold zero entries; plus (plain, 1 in 4) a transaction "
-                 "[InsertTree k, ReferenceTree k] that must be rejected without trace; distinct = SHA-1 of the op list; non-trivial = the "
-                 "history shared nodes between trees or freed nodes by a dereference"),
+        "rule": ("histories from SplitMix64 states on a Db with 1..3 multitree columns (variants append_only / ref_counted roots / plain) "
+                 "and, in 1/3 of the cases, a key-value column: TRANSACTIONS of 1..6 operations (40 % multi-operation; InsertTree of gener"
+                 "ated trees as before - depth 0..5, fan-out 0..255 incl. exactly 255, 256..300 rejected, node data 0..40 KiB incl. multip"
+                 "art, Existing children among the nodes live at that point of the transaction -, ReferenceTree, DereferenceTree, Set / De"
+                 "reference on the key-value column; every root key at most once per transaction; in 1/5 of the multi-operation transactio"
+                 "ns one invalid operation at a random position: must be rejected without trace), interleaved with process / flush / enact"
+                 " / clean / reindex / reopen and reads through get_tree().read() + TreeReader and the direct API, get_num_column_value_en"
+                 "tries; mass-sharing cases (1 in 6) and 1/8 of the others start the ref-count table with 2..16 chunks (hook) so that it g"
+                 "rows up to 5 times: dumps with queued tables, reindex passes to completion; at the end every tree is dereferenced (sever"
+                 "al roots per transaction) and every counting column must hold zero entries; then one scenario per case (seed % 8): rejec"
+                 "ted [InsertTree k, ReferenceTree k] on plain, [DereferenceTree k, InsertTree k] (F41), [DereferenceTree k, ReferenceTree"
+                 " k] on count 1, InsertTree on a live key / twice in one transaction, Existing at a freed address, stored background erro"
+                 "r; seed % 50 == 7: chains of 1500..3000 and 13000..20000 levels dereferenced in a child process (F42); multitree + compr"
+                 "ession is refused by Options::is_valid (checked, seed % 50 == 3); distinct = SHA-1 of the op list; non-trivial = shared "
+                 "nodes between trees or freed nodes"),
         "assumptions": [A_HASH, "live root keys are distinct and Existing addresses name nodes of live trees (hypotheses of the theorems, "
                         "respected by the generator)", P2_GAP],
     },
